@@ -39,10 +39,24 @@ S3 = ("N", "VROOT", "--", (("N", "S", "--", (("N", "NP-SB", "SB", (("T", "Der", 
                            ("T", ".", "$.", "--", ".", "m", 9)))
 
 
-S4 = ("N", "VROOT", "--", (("N", "S", "--", (("N", "WHNP-1", "--", (("T", "who", "WP", "--", "--", "--", 1),)),
-                                            ("N", "S", "--", (("N", "NP-SBJ-1", "--", (("T", "*T*-1", "-NONE-", "--", "--", "--", 2),)),
-                                                              ("N", "VP", "--", (("T", "left", "VBD", "--", "--", "--", 3),
-                                                                                ("N", "NP=2", "--", (("T", "*", "-NONE-", "--", "--", "--", 4),)))))))),))
+def _t(w, p, k):
+    return ("T", w, p, "--", "--", "--", k)
+
+
+# three filler/trace pairs (co-indices 1, 2, 3) whose paths share nodes, and a gap index
+S4 = ("N", "VROOT", "--", (("N", "SBARQ", "--", (
+    ("N", "WHNP-1", "--", (_t("who", "WP", 1),)),
+    ("N", "WHADVP-3", "--", (_t("when", "WRB", 2),)),
+    ("N", "S", "--", (
+        ("N", "NP-SBJ-2", "--", (_t("he", "PRP", 3),)),
+        ("N", "VP", "--", (
+            _t("said", "VBD", 4),
+            ("N", "S", "--", (
+                ("N", "NP-SBJ", "--", (_t("*-2", "-NONE-", 5),)),
+                ("N", "VP", "--", (
+                    _t("see", "VB", 6),
+                    ("N", "NP=2", "--", (_t("*T*-1", "-NONE-", 7),)),
+                    ("N", "ADVP", "--", (_t("*T*-3", "-NONE-", 8),)))))))))))),))
 
 
 def fixtures():
@@ -132,7 +146,7 @@ def op(i, tag):
         return stubs.get(d)
     if i in (16, 17):
         transform.run(_targs("f4.mrg", d, "brackets", "brackets", ["ptb_delete_traces"],
-                             ["keepall", "keepcoindex"] if i == 17 else ["slash"]))
+                             ["keepall", "keepcoindex"] if i == 17 else ["keepall", "slash"]))
         return stubs.get(d)
     if i == 18:
         a = _targs("f1.export", d, "export", "export")
